@@ -224,14 +224,18 @@ func (br *BlockReader) SkipNext() (*BlockMetadata, error) {
 			}
 			end, err := brs.Seek(0, io.SeekEnd)
 			if err != nil {
-				return nil, err
-			}
-			br.readerSize = end
-			if _, err = brs.Seek(cur, io.SeekStart); err != nil {
-				return nil, err
+				// A source that cannot seek to its end (the data reader of a CARv1 Reader, which
+				// sits on an io.ReaderAt of unknown size) has not moved: read the block instead.
+				ok = false
+			} else {
+				br.readerSize = end
+				if _, err = brs.Seek(cur, io.SeekStart); err != nil {
+					return nil, err
+				}
 			}
 		}
-
+	}
+	if ok {
 		// seek forward past the block data
 		finalOffset, err := brs.Seek(int64(blockSize), io.SeekCurrent)
 		if err != nil {
